@@ -142,12 +142,14 @@ structure ListingSite where
   call : Nat
   isSorted : Bool
   key : Nat
+  keyShape : Nat
   deriving Repr, DecidableEq
 
 /-- every call of a directory-listing primitive (rglob/glob/iglob/iterdir/walk/fwalk/listdir/scandir): is it the first
-argument of `sorted(`, and with which `key=` (empty = natural total order of the entries) -/
+argument of `sorted(`, with which `key=` (source text; empty = natural total order of the entries) and the shape of that
+key as classified by the translator (natural | basename-then-path | other) -/
 def listingSites : List ListingSite :=
-  [{ file := k! "__init__.py", func := k! "get_first_file", call := k! "path.rglob", isSorted := false, key := k! "" },
-   { file := k! "parser/base.py", func := k! "Parser.iter_source", call := k! "self.source.rglob", isSorted := true, key := k! "lambda p: p.name" }]
+  [{ file := k! "__init__.py", func := k! "get_first_file", call := k! "path.rglob", isSorted := true, key := k! "", keyShape := k! "natural" },
+   { file := k! "parser/base.py", func := k! "Parser.iter_source", call := k! "self.source.rglob", isSorted := true, key := k! "lambda p: (p.name, p.as_posix())", keyShape := k! "basename-then-path" }]
 
 end Dcg.Gen.SetSites
